@@ -14,6 +14,9 @@ Suites
   FORMAT       model of the formatting branch of compare()/lint_value() (position resolution
                + message) against the real compare()/lint_file() on .ini/.inc pairs, where
                the base Checker is the only checker
+  SKELETON     model of the try/except structure of compare/add/lint_file (generated guard
+               table) against the ROBUST observations: which failing step is reported, which escapes
+  SKIPSORT     model of skips.sort(key=lambda s: s.span[0]) for strings.xml against the merging runs
   DECODE       contract of the decoder oracle: open(errors="replace", newline=None) never
                raises, yields no carriage return; one U+FFFD per injected 0xFF byte
 
@@ -48,7 +51,8 @@ RULE = ("pairs of byte strings per file type (8 types incl. an unknown extension
         "mostly-valid files from record lists (values with printf/plural/CSS/entity-reference/"
         "placeable shapes, optional injected 0xFF bytes), byte-level mutations of them (delete, "
         "insert, duplicate, splice, invalid UTF-8 sequences, NUL, CR/CRLF, BOMs, unbalanced quotes "
-        "and tags), truncation at every position of a small file, arbitrary bytes and token soups; "
+        "and tags), truncation at every position of a small file, arbitrary bytes and token soups, and "
+        "large / deeply nested / numerically extreme content as the value of a shared string; "
         "each pair observed through compare / compare+merge / add / remove / lint_file in a worker "
         "process under a watchdog; distinct by (type, ref bytes, l10n bytes); non-trivial = the two "
         "files share at least one key or the localization has junk")
@@ -1283,7 +1287,7 @@ def run(chk, runner_ok):
     sampled = 0
     skel, skips = [], []
     slowest = (0.0, None, None)
-    abandoned = 0
+    abandoned = xml_rejected = 0
     for case, obs in zip(cases, results):
         key = (case["ft"], case["ref"], case["l10n"])
         chk.evaluations += 1
@@ -1305,6 +1309,8 @@ def run(chk, runner_ok):
             for op in OPS:
                 if obs[op]["kind"] == "ok" and obs[op]["t"] > slowest[0]:
                     slowest = (obs[op]["t"], op, case)
+        if case["ft"] == "android" and expat_rejects(universal_decode(case["l10n"])):
+            xml_rejected += 1
         for sig, detail in judge(case, obs) + judge_android_junk(case, obs):
             chk.fail(sig, describe(case), detail)
         for req, cls, op in skeleton_rows(case, obs):
@@ -1339,6 +1345,14 @@ def run(chk, runner_ok):
         chk.notes.append(f"slowest entry point that answered: {slowest[1]} {slowest[0]}s on a {c['ft']} pair "
                          f"({c['stream']}; {len(c['ref'])} + {len(c['l10n'])} bytes, l10n starts "
                          f"{c['l10n'][:40]!r})")
+    chk.assumptions.append(
+        f"minidom/expat oracle: a strings.xml that expat (namespace-aware, as minidom uses it) rejects raises "
+        f"inside minidom.parseString and becomes a single junk entry, one lint error, one 'Unparsed content' "
+        f"error: checked on {xml_rejected} rejected localizations")
+    chk.assumptions.append(
+        "xml.sax / fluent.syntax oracles: exceptions other than those the code catches (SAXParseException around "
+        "the sax parses; fluent.syntax reports syntax errors as Junk) are observed by ROBUST as outcomes; the "
+        "RecursionError family is listed in known_findings.json")
     suite_decode(chk)
     suite_encoding(chk, model)
     suite_format(chk, model)
@@ -1359,9 +1373,9 @@ def replay(chk, path):
                 continue
             case = {"ft": c["type"], "ref": c["ref_bytes"].encode("latin-1"),
                     "l10n": c["l10n_bytes"].encode("latin-1"), "stream": c.get("stream", "replay"),
-                    "expect": c.get("expect"), "filter": c.get("filter", False)}
+                    "expect": c.get("expect"), "filter": c.get("filter", False), "extra": c.get("extra")}
             res = Pool(1, soft=20.0, hard=90.0).run([case], 1)[0]
-            bad = judge(case, res) if res is not None else [("not-run", {})]
+            bad = judge(case, res) + judge_android_junk(case, res) if res is not None else [("not-run", {})]
             print("case", c["type"], repr(case["ref"]), repr(case["l10n"]))
             print("  outcome:", outcome_class(res) if res else None)
             for sig, detail in bad:
